@@ -145,6 +145,14 @@ func judge(c *Case) (v Verdict) {
 		if !ok {
 			continue
 		}
+		// Real endpoints first (when asked for), so that a refusal is reported in
+		// the words of the endpoint that refuses.
+		if c.Endpoints {
+			if msg := initialiseEndpoints(merged, side.alpha); msg != "" {
+				v.Violation = fmt.Sprintf("accepted triple, effective %s configuration %+v: %s", side.name, want, msg)
+				return
+			}
+		}
 		// (a) what a remote endpoint's initialize request checks.
 		if err := merged.EnsureValid(false); err != nil {
 			v.Violation = fmt.Sprintf("accepted triple, but the effective %s configuration %+v is refused by the validation a remote endpoint applies: %v", side.name, want, err)
@@ -154,12 +162,6 @@ func judge(c *Case) (v Verdict) {
 		if msg := endpointRequirement(want); msg != "" {
 			v.Violation = fmt.Sprintf("accepted triple, but the effective %s configuration is not valid for an endpoint: %s", side.name, msg)
 			return
-		}
-		if c.Endpoints {
-			if msg := initialiseEndpoints(merged, side.alpha); msg != "" {
-				v.Violation = fmt.Sprintf("accepted triple, effective %s configuration %+v: %s", side.name, want, msg)
-				return
-			}
 		}
 	}
 	if ok {
